@@ -155,6 +155,24 @@ impl futures::Stream for SimEventStream {
                             let kind = if te.ev == Ev::ScrollUp { MouseEventKind::ScrollUp } else { MouseEventKind::ScrollDown };
                             return Poll::Ready(Some(Ok(CE::Mouse(MouseEvent { kind, column: 0, row: 0, modifiers: KeyModifiers::NONE }))));
                         }
+                        Ev::Term(n) => {
+                            use crossterm::event::{KeyEventKind, MouseButton};
+                            sc.shared.borrow_mut().count("other_terminal_event");
+                            let mouse = |kind| CE::Mouse(MouseEvent { kind, column: 3, row: 1, modifiers: KeyModifiers::NONE });
+                            return Poll::Ready(Some(Ok(match c17::term_event(*n) {
+                                c17::TermEv::Press(code) => CE::Key(KeyEvent::new(code, KeyModifiers::NONE)),
+                                c17::TermEv::NotPress(c, repeat) => CE::Key(KeyEvent::new_with_kind(KeyCode::Char(c), KeyModifiers::NONE, if repeat { KeyEventKind::Repeat } else { KeyEventKind::Release })),
+                                c17::TermEv::FocusGained => CE::FocusGained,
+                                c17::TermEv::FocusLost => CE::FocusLost,
+                                c17::TermEv::Paste(text) => CE::Paste(text.to_string()),
+                                c17::TermEv::Mouse(0) => mouse(MouseEventKind::Down(MouseButton::Left)),
+                                c17::TermEv::Mouse(1) => mouse(MouseEventKind::Up(MouseButton::Left)),
+                                c17::TermEv::Mouse(2) => mouse(MouseEventKind::Moved),
+                                c17::TermEv::Mouse(3) => mouse(MouseEventKind::Drag(MouseButton::Right)),
+                                c17::TermEv::Mouse(4) => mouse(MouseEventKind::ScrollLeft),
+                                c17::TermEv::Mouse(_) => mouse(MouseEventKind::ScrollRight),
+                            })));
+                        }
                         other => match c17::keycode_of(other) {
                             Some(code) => return Poll::Ready(Some(Ok(CE::Key(KeyEvent::new(code, c17::modifiers_of(other)))))),
                             None => continue,
